@@ -786,6 +786,26 @@ def cardenc_contract(ctx):
         ctx.res.extra["cardenc_empty_lits"] = f"ValueError({e})"
 
 
+def high_degree_cases(rng):
+    """wheels, fans and stars-with-a-matching: one vertex joined to all others (coordination up to 9), an even number of vertices so
+    that perfect matchings exist; hub edges listed first, last, or shuffled (encodings that switch at a degree threshold, auxiliary
+    variables colliding with the last edge's variable)"""
+    out = []
+    for nv in (6, 8, 10):
+        rim = list(range(1, nv))
+        spokes = [[0, v] for v in rim]
+        wheel_rim = [[rim[i], rim[(i + 1) % len(rim)]] for i in range(len(rim))]
+        fan_rim = wheel_rim[:-1]
+        for name, rimset in (("wheel", wheel_rim), ("fan", fan_rim)):
+            for order in ("hub-first", "rim-first", "shuffled"):
+                edges = spokes + rimset if order == "hub-first" else rimset + spokes
+                if order == "shuffled":
+                    edges = [edges[i] for i in rng.permutation(len(edges))]
+                edges = [e if rng.uniform() < 0.5 else e[::-1] for e in edges]
+                out.append({"kind": "graph", "family": f"{name}{nv}", "nv": nv, "edges": [list(map(int, e)) for e in edges]})
+    return out
+
+
 def build_cases(tier, seed, big=False):
     rng = np.random.default_rng([seed, 4])
     colours = [1, 2, 3, 4, 5]
@@ -805,6 +825,7 @@ def build_cases(tier, seed, big=False):
     cases += multigraph_cases(3, 4, True, rng, 150 if thorough else 25)
     cases += multigraph_cases(4, 5, True, rng, 300 if thorough else 25)
     cases += random_graph_cases(rng, 150 if thorough else 36)
+    cases += high_degree_cases(rng)
     for c in cases:
         deg0 = sum((a == 0) + (b == 0 and a != 0) for a, b in c["edges"])
         c["ops"] = ops_for_graph(c["nv"], c["edges"], rng, colours, deg0 <= 3, tier)
